@@ -34,29 +34,41 @@ fn v(sig: &str, d: J) {
     out::viol(&format!("C11/{}", sig), d);
 }
 
-fn tag_region(g: u64) -> Arc<Reg> {
-    let r = GuestRegionMmap::<()>::from_range(GuestAddress(TBASE + g * TSTEP), RSZ, None).expect("tag region");
+/// `same`: every generation's tag region sits at the SAME guest address with the same size (a
+/// replacement that keeps the layout and only swaps the backing memory); otherwise the address
+/// encodes the generation as well.
+fn taddr(g: u64, same: bool) -> u64 {
+    if same {
+        TBASE
+    } else {
+        TBASE + g * TSTEP
+    }
+}
+
+fn tag_region(g: u64, same: bool) -> Arc<Reg> {
+    let r = GuestRegionMmap::<()>::from_range(GuestAddress(taddr(g, same)), RSZ, None).expect("tag region");
     r.store::<u64>(g, vm_memory::MemoryRegionAddress(0), Ordering::Release).expect("tag store");
     r.store::<u64>(!g, vm_memory::MemoryRegionAddress((RSZ - 8) as u64), Ordering::Release).expect("tag store");
     Arc::new(r)
 }
 
-fn initial_map() -> (Map, Weak<Reg>) {
+fn initial_map(same: bool) -> (Map, Weak<Reg>) {
     let r0 = Arc::new(GuestRegionMmap::<()>::from_range(GuestAddress(0), RSZ, None).unwrap());
-    let t0 = tag_region(0);
+    let t0 = tag_region(0, same);
     let w = Arc::downgrade(&t0);
     (Map::from_arc_regions(vec![r0, t0]).unwrap(), w)
 }
 
 /// What a snapshot shows: Ok(generation) if it is exactly {R0, T_g} with tag bytes g.
-fn observe(m: &Map) -> Result<u64, String> {
+fn observe(m: &Map, same: bool) -> Result<u64, String> {
     let regs: Vec<(u64, u64)> = m.iter().map(|r| (r.start_addr().0, r.len())).collect();
     if regs.len() != 2 || regs[0] != (0, RSZ as u64) || regs[1].1 != RSZ as u64 || regs[1].0 < TBASE || (regs[1].0 - TBASE) % TSTEP != 0 {
         return Err(format!("region list is not one published map: {:x?}", regs));
     }
-    let g = (regs[1].0 - TBASE) / TSTEP;
     let a = m.load::<u64>(GuestAddress(regs[1].0), Ordering::Acquire).map_err(|e| format!("tag unreadable: {:?}", e))?;
     let b = m.load::<u64>(GuestAddress(regs[1].0 + RSZ as u64 - 8), Ordering::Acquire).map_err(|e| format!("tag unreadable: {:?}", e))?;
+    // same-layout mode: the tag bytes alone carry the generation; otherwise the address must agree
+    let g = if same { if regs[1].0 != TBASE { return Err(format!("tag region at {:#x} in a same-layout history", regs[1].0)); } a } else { (regs[1].0 - TBASE) / TSTEP };
     if a != g || b != !g {
         return Err(format!("list says generation {} but tag bytes say {} / {}", g, a, !b));
     }
@@ -72,6 +84,7 @@ enum Ev {
 }
 
 struct Shared {
+    same: bool,
     atomic: GuestMemoryAtomic<Map>,
     clock: AtomicU64,
     in_lock: AtomicUsize,
@@ -86,7 +99,7 @@ fn updater(sh: &Shared, at: &GuestMemoryAtomic<Map>, id: usize, n: u64, r: &mut 
         let c = sh.in_lock.fetch_add(1, Ordering::SeqCst) + 1;
         sh.max_in_lock.fetch_max(c, Ordering::SeqCst);
         let cur = at.memory();
-        let g = match observe(&cur) {
+        let g = match observe(&cur, sh.same) {
             Ok(g) => g,
             Err(e) => {
                 evs.push(Ev::Snap { reader: 1000 + id, t0: 0, gen: Err(e), restable: None, how: "updater-view", spanned: 0 });
@@ -97,9 +110,9 @@ fn updater(sh: &Shared, at: &GuestMemoryAtomic<Map>, id: usize, n: u64, r: &mut 
         if r.chance(1, 3) {
             std::thread::yield_now();
         }
-        let t = tag_region(g + 1);
+        let t = tag_region(g + 1, sh.same);
         sh.weaks.lock().unwrap().push((g + 1, Arc::downgrade(&t)));
-        let (without, _old) = cur.remove_region(GuestAddress(TBASE + g * TSTEP), RSZ as u64).expect("remove current tag region");
+        let (without, _old) = cur.remove_region(GuestAddress(taddr(g, sh.same)), RSZ as u64).expect("remove current tag region");
         let next = without.insert_region(t).expect("insert next tag region");
         drop(cur);
         drop(_old);
@@ -118,7 +131,7 @@ fn reader(sh: &Shared, at: &GuestMemoryAtomic<Map>, id: usize, n: u64, r: &mut R
     for _ in 0..n {
         let t0 = sh.clock.fetch_add(1, Ordering::SeqCst);
         let snap = at.memory();
-        let gen = observe(&snap);
+        let gen = observe(&snap, sh.same);
         let before = sh.completed.load(Ordering::SeqCst);
         let (how, restable) = match r.below(5) {
             0 => ("drop-immediately", None),
@@ -126,7 +139,7 @@ fn reader(sh: &Shared, at: &GuestMemoryAtomic<Map>, id: usize, n: u64, r: &mut R
                 for _ in 0..r.below(6) {
                     std::thread::yield_now();
                 }
-                ("hold", Some(observe(&snap)))
+                ("hold", Some(observe(&snap, sh.same)))
             }
             2 => {
                 let c = snap.clone();
@@ -134,14 +147,14 @@ fn reader(sh: &Shared, at: &GuestMemoryAtomic<Map>, id: usize, n: u64, r: &mut R
                 for _ in 0..r.below(6) {
                     std::thread::yield_now();
                 }
-                ("clone-then-drop-original", Some(observe(&c)))
+                ("clone-then-drop-original", Some(observe(&c, sh.same)))
             }
             3 => {
                 let owned: Arc<Map> = snap.into_inner();
                 for _ in 0..r.below(6) {
                     std::thread::yield_now();
                 }
-                ("into_inner", Some(observe(&owned)))
+                ("into_inner", Some(observe(&owned, sh.same)))
             }
             _ => {
                 // spin until at least one more replacement completed (bounded), then re-read
@@ -150,7 +163,7 @@ fn reader(sh: &Shared, at: &GuestMemoryAtomic<Map>, id: usize, n: u64, r: &mut R
                     std::thread::yield_now();
                     spins += 1;
                 }
-                ("hold-across-replacement", Some(observe(&snap)))
+                ("hold-across-replacement", Some(observe(&snap, sh.same)))
             }
         };
         let spanned = sh.completed.load(Ordering::SeqCst) - before;
@@ -170,7 +183,7 @@ fn judge(evs: &[Ev], sh: &Shared, mode: &str) {
     if maxl > 1 {
         v(&format!("{}/two-updaters-inside-the-lock", mode), jobj! {"max_in_lock" => maxl});
     }
-    let fin = observe(&sh.atomic.memory());
+    let fin = observe(&sh.atomic.memory(), sh.same);
     let completed = sh.completed.load(Ordering::SeqCst);
     match &fin {
         Ok(g) if *g == completed => {}
@@ -211,7 +224,7 @@ fn judge(evs: &[Ev], sh: &Shared, mode: &str) {
                 }
                 last_of.insert(*reader, g);
             }
-            out::key(&format!("{}|{}|spanned{}|lag{}", mode, how, (*spanned).min(3), (completed.saturating_sub(g)).min(3)), *spanned > 0 || restable.is_some());
+            out::key(&format!("{}{}|{}|spanned{}|lag{}", mode, if sh.same { "-samelayout" } else { "" }, how, (*spanned).min(3), (completed.saturating_sub(g)).min(3)), *spanned > 0 || restable.is_some());
             if *spanned > 0 {
                 out::count("snapshots_held_across_replacements", 1);
             }
@@ -235,8 +248,10 @@ fn stress(args: &Args) {
     let uops = args.u64("uops", if cfg!(miri) { 2 } else { 40 });
     let mut total_ops = 0u64;
     for round in 0..rounds {
-        let (m, w0) = initial_map();
+        let same = round % 2 == 1;
+        let (m, w0) = initial_map(same);
         let sh = Arc::new(Shared {
+            same,
             atomic: GuestMemoryAtomic::new(m),
             clock: AtomicU64::new(1),
             in_lock: AtomicUsize::new(0),
@@ -287,7 +302,8 @@ fn stress(args: &Args) {
 fn sequential(args: &Args) {
     for case in args.cases(500) {
         let mut r = Rng::new(args.seed(), "c11-seq", case);
-        let (m, w0) = initial_map();
+        let same = case % 2 == 1;
+        let (m, w0) = initial_map(same);
         let root = GuestMemoryAtomic::new(m);
         let handles: Vec<GuestMemoryAtomic<Map>> = (0..3).map(|_| root.clone()).collect();
         let mut cur = 0u64;
@@ -305,7 +321,7 @@ fn sequential(args: &Args) {
             match r.below(10) {
                 0..=2 => {
                     let s = h.memory();
-                    match observe(&s) {
+                    match observe(&s, same) {
                         Ok(g) if g == cur => {}
                         other => {
                             v("seq/snapshot-is-not-the-current-map", jobj! {"current" => cur, "saw" => J::dbg(&other), "trace" => trace.clone()});
@@ -331,9 +347,9 @@ fn sequential(args: &Args) {
                 5..=7 => {
                     let guard = h.lock().unwrap();
                     let curm = h.memory();
-                    let t = tag_region(cur + 1);
+                    let t = tag_region(cur + 1, same);
                     weaks.push((cur + 1, Arc::downgrade(&t)));
-                    let (without, old) = curm.remove_region(GuestAddress(TBASE + cur * TSTEP), RSZ as u64).unwrap();
+                    let (without, old) = curm.remove_region(GuestAddress(taddr(cur, same)), RSZ as u64).unwrap();
                     let next = without.insert_region(t).unwrap();
                     drop(old);
                     drop(curm);
@@ -359,8 +375,8 @@ fn sequential(args: &Args) {
             // every held snapshot still shows its generation
             for (g, hd) in &held {
                 let o = match hd {
-                    Held::Guard(s) => observe(s),
-                    Held::Owned(s) => observe(s),
+                    Held::Guard(s) => observe(s, same),
+                    Held::Owned(s) => observe(s, same),
                 };
                 if o != Ok(*g) {
                     v("seq/held-snapshot-changed", jobj! {"expected" => *g, "saw" => J::dbg(&o), "trace" => trace.clone()});
@@ -375,7 +391,7 @@ fn sequential(args: &Args) {
                     return;
                 }
             }
-            out::key(&format!("seq|{}|held{}", trace.last().map(|s| s.split('@').next().unwrap_or("").split("->").next().unwrap_or("")).unwrap_or(""), held.len().min(4)), true);
+            out::key(&format!("seq{}|{}|held{}", if same { "-samelayout" } else { "" }, trace.last().map(|s| s.split('@').next().unwrap_or("").split("->").next().unwrap_or("")).unwrap_or(""), held.len().min(4)), true);
         }
         if out::want_sample() && case % 50 == 0 {
             out::sample(jobj! {"mode" => "seq", "trace" => trace.clone()});
